@@ -590,7 +590,10 @@ pub fn exec(tw: &TcpWorld, uw: &c07::World, ops: &[Op], up_is_outbound: bool, wi
                 let m = http_get(addr, "/metrics");
                 let hc = http_get(addr, "/health-check");
                 let other = http_get(addr, "/nope");
-                let _ = tx.send((m, hc, other));
+                // a query string does not change which resource is asked for (scrape configurations and probes add them)
+                let mq = http_get(addr, "/metrics?format=prometheus").map(|x| x.0).unwrap_or(0);
+                let hq = http_get(addr, "/health-check?probe=1").map(|x| x.0).unwrap_or(0);
+                let _ = tx.send((m, hc, other, mq, hq));
             });
             let start = Instant::now();
             let got = loop {
@@ -605,7 +608,10 @@ pub fn exec(tw: &TcpWorld, uw: &c07::World, ops: &[Op], up_is_outbound: bool, wi
                 }
             };
             match got {
-                Some((m, hc, other)) => {
+                Some((m, hc, other, mq, hq)) => {
+                    if (mq, hq) != (200, 200) {
+                        outs.push(format!("listener:with-query metrics={} health={}", mq, hq));
+                    }
                     let (ms, mtext) = m.map(|(s, b)| (s, String::from_utf8_lossy(&b).to_string())).unwrap_or((0, String::new()));
                     outs.push(format!(
                         "listener:metrics={} {} health={} other={}",
